@@ -146,8 +146,12 @@ class Builder:
     def expr_for(self, v):
         """An arithmetic expression (documented: "basic arithmetic operations" over integers and constants) with value v.  The first
         token is often a bare decimal 0..31 - a spelling that is also a register name."""
-        k = self.i(0, 7)
+        k = self.i(0, 8)
         a = self.pick([0, 1, 2, 4, 5, 8, 10, 16, 31, 3, 7]) if self.chance(0.7) else self.i(-64, 4096)
+        if k == 8:
+            # a top-level shift: ADDR >> 12 (the usual way to write a lui operand)
+            sh = self.pick([12, 12, 4, 1])
+            return ir.Bin('>>', ir.Lit((v << sh) | self.i(0, (1 << sh) - 1)), ir.Lit(sh))
         names = [n for n, cv in self.cvals.items() if not isinstance(cv, tuple) and abs(cv) < (1 << 40)]
         if k == 0:
             return ir.Bin('+', ir.Lit(a), ir.Lit(v - a))
@@ -259,6 +263,10 @@ class Builder:
             if names and self.chance(0.35):
                 n = self.pick(names)
                 return ir.CRef(n), self.cvals[n]
+            if self.chance(0.15):
+                # character literals as operands of arithmetic ('a' + 'b' + 'c': several on one line)
+                ch = self.pick('AZaz09?!+-*/<>=_.:;@$%^&|~[]{}')
+                return ir.Chr(ch), ord(ch)
             v = self.pick([0, 1, 2, 3, 4, 7, 8, 15, 16, 31, 32, 42, 255, 256, 0x7ff, 0x800, 0xfff, 0x1000, 0xffff,
                            0x40021000, 0x7fffffff, 0x80000000, 0xffffffff]) if self.chance(0.5) else self.i(0, 1 << 20)
             if self.chance(0.15):
@@ -427,9 +435,15 @@ class Builder:
         if self.chance(self.p['p_compressible']) and mn == 'lui':
             v = self.pick([1, 31, 32, -1, -32, -33, 0, 0xfffe0, 0xfffff, 0xfffdf, 16, 0x1f, 0x20, 0xfffe1, 0xfffef, 0xffff0, 0xffff1,
                            self.i(0xfffe0, 0xfffff), self.i(-32, 31)])
-            return ir.Insn('lui', {'rd': self.reg(pool=[0, 1, 2, 3, 8, 15, 31]), 'imm': ir.Lit(v)})
+            return ir.Insn('lui', {'rd': self.reg(pool=[0, 1, 2, 3, 8, 15, 31]), 'imm': self.upper_operand(v)})
         v = self.edgy(-0x80000, 0xfffff, extra=(0x7ffff, 0x80000, 0xfffe0))
-        return ir.Insn(mn, {'rd': self.reg(), 'imm': ir.Lit(v)})
+        return ir.Insn(mn, {'rd': self.reg(), 'imm': self.upper_operand(v)})
+
+    def upper_operand(self, v):
+        if self.chance(0.2):
+            self.tags.add('expr_operand')
+            return self.expr_for(v)
+        return self.lit_or_const(v) if self.chance(0.3) else ir.Lit(v)
 
     def insn_sys(self):
         k = self.i(0, 5)
